@@ -11,7 +11,7 @@ is as long as the cutoff the sweep used; tempering equalisation only raises cuto
 containers exchangeable.  NOT proved (physics, not logic about this code): that a cutoff with this
 headroom removes the truncation bias, i.e. the clause "hence reaches the same averages".
 -/
-import QmcProofs.Cutoff
+import QmcProofs.CutoffUser
 
 namespace Qmc.C12
 open Qmc Qmc.CSampler
@@ -306,6 +306,124 @@ example :
 example : ([2, 4, 9].map fun c =>
     let s := increaseCutoffTo c { cutoff := 4, occ := [true, false, true, false] }
     (s.cutoff, s.len, s.n)) = [(4, 4, 2), (4, 4, 2), (9, 9, 2)] := by decide
+
+/-! ### user-supplied cutoffs in the middle of a run (round 9)
+
+`set_cutoff(c)` of both samplers overwrites the field with ANY `c`; a sampler can be rebuilt around a
+saved container with any cutoff (`new_with_rng_with_manager_hook`).  "Whatever cutoff the user
+supplied" therefore also covers a cutoff that merely fits the current string (`n ≤ c < n + n/2 + 1`,
+even `c = n`).  The growth rule is applied after EVERY step, whether or not the step added
+operators, so the headroom is re-established by the very next step. -/
+
+/-- One time step from **any** state (no hypothesis at all: any cutoff, any container, `Inv` or
+not): the cutoff does not shrink, one free slot, the margin `n/2 + 1`. -/
+theorem step_headroom_any_state (d : Nat → Bool → Bool) (s : CSampler) :
+    s.cutoff ≤ (timestep d s).cutoff ∧ (timestep d s).n < (timestep d s).cutoff ∧
+    (timestep d s).n + (timestep d s).n / 2 + 1 ≤ (timestep d s).cutoff := by
+  have hcut : (timestep d s).cutoff = nextCutoff s.cutoff (timestep d s).n :=
+    diagStepWith_cutoff nextCutoff d s
+  rw [hcut]
+  exact ⟨nextCutoff_ge_left _ _, nextCutoff_gt_n _ _, nextCutoff_margin _ _⟩
+
+/-- One time step from any state whose operators sit below the cutoff (`Fits`; in particular from
+every state with `n ≤ cutoff` and a dense string, `cutoff = n` included, and from every `Inv`
+state): additionally the new count fits into the cutoff the sweep used (so `cutoff − n` never
+underflows), the string fits the new cutoff, `n ≤ cutoff` again. -/
+theorem step_from_fitting_state (d : Nat → Bool → Bool) (s : CSampler) (h : s.Fits) :
+    s.n ≤ s.cutoff ∧ (timestep d s).n ≤ s.cutoff ∧ (timestep d s).Fits ∧
+    s.cutoff ≤ (timestep d s).cutoff ∧ (timestep d s).n < (timestep d s).cutoff ∧
+    (timestep d s).n + (timestep d s).n / 2 + 1 ≤ (timestep d s).cutoff ∧
+    s.len ≤ (timestep d s).len ∧ s.cutoff ≤ (timestep d s).len :=
+  ⟨fits_n_le s h, diagStepWith_n_le_of_fits nextCutoff d s h,
+    diagStepWith_fits nextCutoff nextCutoff_ge_left d s h,
+    (step_headroom_any_state d s).1, (step_headroom_any_state d s).2.1,
+    (step_headroom_any_state d s).2.2, (container_never_shrinks d s).1,
+    (container_never_shrinks d s).2⟩
+
+/-- the library's own invariant is a special case of `Fits` -/
+theorem inv_fits (s : CSampler) (h : s.Inv) : s.Fits := fits_of_inv s h
+
+/-- `set_cutoff(c)` with any `c` and the hook restore with any `c`: the sampler reports exactly `c`,
+operators untouched, container never shrunk; if the string fits below `c`, the result `Fits`
+(and so `n ≤ c`). -/
+theorem user_cutoff_spec (c : Nat) (s : CSampler) :
+    (setCutoff c s).cutoff = c ∧ (setCutoff c s).n = s.n ∧ s.len ≤ (setCutoff c s).len ∧
+    (CSampler.restore c s.occ).cutoff = c ∧ (CSampler.restore c s.occ).n = s.n ∧
+    s.len ≤ (CSampler.restore c s.occ).len ∧
+    (countOcc (s.occ.drop c) = 0 → (setCutoff c s).Fits ∧ (CSampler.restore c s.occ).Fits ∧ s.n ≤ c) := by
+  refine ⟨rfl, setCutoff_n _ _, by rw [setCutoff_len]; exact growLen_ge_left _ _, rfl,
+    restore_n _ _, by rw [restore_len]; exact growLen_ge_left _ _, fun h => ⟨setCutoff_fits c s h,
+    restore_fits c s.occ h, ?_⟩⟩
+  have := fits_n_le _ (setCutoff_fits c s h)
+  rw [setCutoff_n] at this; exact this
+
+/-- Any history of time steps, `set_cutoff(c)` and restores with **arbitrary** `c`, from **any**
+state: every state reached by a time step has a free slot and the margin. -/
+theorem user_history_headroom (acts : List UserAction) (s : CSampler) :
+    ∀ x ∈ userTrace acts s, x.1 = true →
+      x.2.n < x.2.cutoff ∧ x.2.n + x.2.n / 2 + 1 ≤ x.2.cutoff := by
+  induction acts generalizing s with
+  | nil => intro x hx; cases hx
+  | cons a t ih =>
+    intro x hx hstep
+    simp only [userTrace, List.mem_cons] at hx
+    cases hx with
+    | inr hm => exact ih _ x hm hstep
+    | inl he =>
+      subst he
+      cases a with
+      | step d => exact (step_headroom_any_state d s).2
+      | setCut c => simp at hstep
+      | restore c => simp at hstep
+
+/-- … and if the string fits at the start and every user-supplied cutoff fits the string it is
+applied to, every state reached (by a step or by a user call) has all operators below its cutoff
+and `n ≤ cutoff`. -/
+theorem user_history_fits (acts : List UserAction) (s : CSampler) (h : s.Fits)
+    (hv : UserValid acts s) : ∀ x ∈ userTrace acts s, x.2.Fits ∧ x.2.n ≤ x.2.cutoff := by
+  induction acts generalizing s with
+  | nil => intro x hx; cases hx
+  | cons a t ih =>
+    intro x hx
+    have key : (applyUser s a).Fits ∧ UserValid t (applyUser s a) := by
+      cases a with
+      | step d => exact ⟨(step_from_fitting_state d s h).2.2.1, hv⟩
+      | setCut c => exact ⟨setCutoff_fits c s hv.1, hv.2⟩
+      | restore c => exact ⟨restore_fits c s.occ hv.1, hv.2⟩
+    simp only [userTrace, List.mem_cons] at hx
+    cases hx with
+    | inr hm => exact ih _ key.1 key.2 x hm
+    | inl he => subst he; exact ⟨key.1, fits_n_le _ key.1⟩
+
+/-- non-vacuity at `cutoff = n`: a full two-slot string whose cutoff the user pinned to 2; a step
+that changes nothing (keeps both operators, adds none) ends with cutoff 4 = 2 + 1 + 1. -/
+example :
+    let s : CSampler := setCutoff 2 { cutoff := 7, occ := [true, true] }
+    s.Fits ∧ s.n = s.cutoff ∧
+      ((timestep (fun _ b => b) s).cutoff, (timestep (fun _ b => b) s).n) = (4, 2) := by
+  refine ⟨(fits_iff _).mp (by decide), by decide, by decide⟩
+
+/-- the same through a restore into a container with trailing empty slots (cutoff 3 < length 5): the
+string fits, `Inv` does not hold, the step still re-establishes the margin and `Fits` -/
+example :
+    let s := CSampler.restore 3 [true, false, true, false, false]
+    s.Fits ∧ ¬ s.Inv ∧ ((timestep (fun _ b => b) s).cutoff, (timestep (fun _ b => b) s).n,
+      (timestep (fun _ b => b) s).len) = (4, 2, 5) := by
+  refine ⟨(fits_iff _).mp (by decide), by unfold CSampler.Inv; decide, by decide⟩
+
+/-- a valid user history: step, pin the cutoff to the slot count, step, restore with cutoff = n -/
+example : UserValid [.step (fun _ _ => true), .setCut 1, .step (fun _ b => b), .restore 1] (newIsing 1) := by
+  refine ⟨?_, ?_, trivial⟩ <;> decide
+
+/-- Why the rule must NOT be skipped when the step added no operator (seeded mutation C12-18): with
+the guarded rule the sampler of the first example keeps cutoff 2 = n for ever — no free slot — while
+the guarded rule and the code's rule agree on every run the library alone drives from a fresh sampler
+(first steps below). -/
+example :
+    let s : CSampler := setCutoff 2 { cutoff := 7, occ := [true, true] }
+    (guardedStep (fun _ b => b) s).cutoff = 2 ∧ (guardedStep (fun _ b => b) s).n = 2 ∧
+    (guardedStep (fun _ _ => true) (newIsing 1)) = timestep (fun _ _ => true) (newIsing 1) := by
+  refine ⟨by decide, by decide, by decide⟩
 
 /-! ### non-vacuity: concrete runs -/
 
